@@ -177,7 +177,7 @@ def run(chk):
             for k, f in files.items():
                 if k in b.rejected or k in b.build_errors:
                     continue
-                d = gen_tmpl.Denote(f, lrender.OBJS)
+                d = gen_tmpl.Denote(f, lrender.OBJS, attr_space=False)
                 for t in f["templates"]:
                     base = gen_tmpl.gen_env(rng)
                     base["Fail"] = [False] * 6
@@ -194,7 +194,7 @@ def run(chk):
                         # a document well over 64 KiB whose final write fails (or succeeds), then a small render
                         bigenv = copy.deepcopy(base)
                         bigenv["SS"] = [["0123456789abcdefghijklmnopqrstuvwxyz-%d" % j for j in range(2600)], []]
-                        dbig = gen_tmpl.Denote(files["big"], lrender.OBJS)
+                        dbig = gen_tmpl.Denote(files["big"], lrender.OBJS, attr_space=False)
                         cases.append((files["big"], "BIGT0", bigenv, rng.choice(["fail1", "buf", "short1"]), dbig))
                         cases.append((f, t["name"], base, "buf", d))
             lines = ["render %s %s %s" % (n, mode, render.env_json(env, lrender.OBJS)) for f, n, env, mode, d in cases]
